@@ -61,3 +61,55 @@ Section ReadPath.
     destruct (replicas_agree raft_ok H_elect H_repl H_commit H_learn c es s nm nm k Hc H Hon Hon) as [_ R]. exact R.
   Qed.
 End ReadPath.
+
+(* ---------------------------------------------------------------- the weakest election rule
+   What the property needs of the replica that answers is not that it has caught up with everything committed, only
+   that its applied prefix contains every ACKNOWLEDGED write ("promote only a member whose applied index has reached
+   the last index acknowledged by the old master"). *)
+Definition covers_acks (s : sys) (n : nat) : bool :=
+  avail (nodes s n) &&
+  forallb (fun a => match a with (o, p, b) =>
+             existsb (entry_eqb (EData o p b)) (firstn (applied (nodes s n)) (glog s)) end) (acked s).
+Definition elect_covering (s : sys) : option (nat * list nat) :=
+  elect_rg_master (master s) (map (fun p => (p, true)) (peers s)) (covers_acks s).
+
+Lemma get_tail_none : forall (a b : list entry) k, get (ents_store b) k = None ->
+  get (ents_store (a ++ b)) k = get (ents_store a) k.
+Proof. intros a b k H. rewrite ents_store_app, get_app, H. reflexivity. Qed.
+
+Section ReadPath2.
+  Variable raft_ok : sys -> event -> bool.
+  Hypothesis H_elect : forall s n, raft_ok s (RElect n) = true ->
+    up (nodes s n) = true /\ prefixb (glog s) (elog (nodes s n)) = true.
+  Hypothesis H_repl : forall s m k, raft_ok s (RReplicate m k) = true ->
+    exists l, leader s = Some l /\ m <> l /\ up (nodes s m) = true /\ hcommit (nodes s m) <= k /\
+              k <= length (elog (nodes s l)) /\
+              (prefixb (glog s) (elog (nodes s m)) = true -> length (glog s) <= k).
+  Hypothesis H_commit : forall s k, raft_ok s (RCommit k) = true ->
+    exists l, leader s = Some l /\ length (glog s) <= k /\ k <= length (elog (nodes s l)) /\
+              nn (cfg s) < 2 * count (fun m => prefixb (firstn k (elog (nodes s l))) (elog (nodes s m))) (nn (cfg s)).
+  Hypothesis H_learn : forall s m c, raft_ok s (RLearn m c) = true ->
+    up (nodes s m) = true /\ hcommit (nodes s m) <= c /\ c <= length (glog s) /\
+    firstn c (elog (nodes s m)) = firstn c (glog s).
+
+  (* a master elected among the members whose applied prefix contains every acknowledged write: its answers are the
+     last-write-wins image of a committed prefix that contains every acknowledged write; and for a key that no
+     committed entry beyond that prefix writes, the answer is the latest committed value *)
+  Lemma covering_master_answers : forall c es s nm ps', wf_cfg c -> run raft_ok (init c) es = Some s ->
+    elect_covering s = Some (nm, ps') ->
+    let a := applied (nodes s nm) in
+    (forall k, read s nm k = get (ents_store (firstn a (glog s))) k) /\
+    (forall o p b, In (o, p, b) (acked s) -> In (EData o p b) (firstn a (glog s))) /\
+    (forall k, get (ents_store (skipn a (glog s))) k = None -> read s nm k = get (ents_store (glog s)) k).
+  Proof.
+    intros c es s nm ps' Hc H He a. unfold elect_covering in He.
+    destruct (elect_rg_master_ok _ _ _ _ _ He) as (_ & _ & Hon & _).
+    unfold covers_acks in Hon. apply andb_prop in Hon. destruct Hon as [Hav Hall].
+    destruct (survives raft_ok H_elect H_repl H_commit H_learn c es s Hc H) as (_ & _ & HR & _).
+    destruct (HR nm (avail_up _ Hav)) as [_ Rd]. fold a in Rd.
+    split; [exact Rd|]. split.
+    - intros o p b Hin. rewrite forallb_forall in Hall. specialize (Hall _ Hin). cbn in Hall.
+      apply existsb_exists in Hall. destruct Hall as (e & He1 & He2). apply entry_eqb_eq in He2. subst e. exact He1.
+    - intros k Hk. rewrite Rd. rewrite <- (firstn_skipn a (glog s)) at 2. symmetry. apply get_tail_none. exact Hk.
+  Qed.
+End ReadPath2.
